@@ -32,6 +32,17 @@ def main():
             key = re.search(r"^key=(.*)$", txt, re.M).group(1)
             if key in known or key.startswith("wellformed|"):
                 continue
+            if key.startswith("family|"):
+                # a member of a well-formed family (nlv/checks/c04_families.py): the generated program is stored as witness
+                os.makedirs(os.path.join(FD, "families"), exist_ok=True)
+                name = slug("|".join(key.split("|")[1:4]))
+                open(os.path.join(FD, "families", name + ".nano"), "w").write(open(os.path.join(p, "main.nano")).read())
+                what = re.search(r"\n\n(.*?)\n", txt, re.S).group(1)
+                kj["open"].append({"property": "C04", "key": key, "what": what[:300], "witness": "findings/C04/families/%s.nano" % name})
+                known.add(key)
+                added += 1
+                print("added", key)
+                continue
             if key.startswith("cell|"):
                 cell = key.split("|")[1]
                 wit = "findings/census/%s.nano" % cell[7:] if cell.startswith("census/") else "findings/C04/cell_%s.nano" % cell
